@@ -664,44 +664,63 @@ def gen_binds(ctx: Ctx) -> List[dict]:
     return out
 
 
+class _Recording:
+    """`hypercorn.config.socket` replaced by a module whose `socket` class records what it is asked for (one record per socket, in
+    the order of creation) instead of asking the OS; `getsockname()` reports the address given to `bind()`."""
+
+    def __init__(self, type_: int = socket.SOCK_STREAM) -> None:
+        self.recs: List[Dict[str, Any]] = []
+        self.type_ = type_
+
+    def __enter__(self) -> "_Recording":
+        import hypercorn.config as hc
+        recs, type_ = self.recs, self.type_
+
+        class RecSock:
+            def __init__(self, family=-1, type=-1, proto=-1, fileno=None):
+                self.rec: Dict[str, Any] = {"family": family, "type": type, "fileno": fileno}
+                recs.append(self.rec)
+
+            def setsockopt(self, *a):
+                pass
+
+            def getsockopt(self, *a):
+                return self.rec["type"] if self.rec["fileno"] is None else self.rec.get("fd_type", type_)
+
+            def bind(self, addr):
+                self.rec["bind"] = addr
+
+            def getsockname(self):
+                return self.rec.get("bind", ("0.0.0.0", 0))
+
+            def setblocking(self, f):
+                pass
+
+            def set_inheritable(self, f):
+                pass
+
+            def close(self):
+                pass
+
+        class FakeSocketModule:
+            def __getattr__(self, n):
+                return getattr(socket, n)
+
+        fake = FakeSocketModule()
+        fake.__dict__["socket"] = RecSock
+        self.hc, self.orig = hc, hc.socket
+        hc.socket = fake
+        return self
+
+    def __exit__(self, *a) -> None:
+        self.hc.socket = self.orig
+
+
 def _record_binds(binds: List[str], type_: int = socket.SOCK_STREAM, call=None) -> List[Dict[str, Any]]:
     """Run the real `_create_sockets` (or `call(config)`) with a recording socket class: what it asked the OS for, one record
     per socket, in the order of creation."""
-    import hypercorn.config as hc
-    recs: List[Dict[str, Any]] = []
-
-    class RecSock:
-        def __init__(self, family=-1, type=-1, proto=-1, fileno=None):
-            self.rec: Dict[str, Any] = {"family": family, "type": type, "fileno": fileno}
-            recs.append(self.rec)
-
-        def setsockopt(self, *a):
-            pass
-
-        def getsockopt(self, *a):
-            return self.rec["type"] if self.rec["fileno"] is None else self.rec.get("fd_type", type_)
-
-        def bind(self, addr):
-            self.rec["bind"] = addr
-
-        def getsockname(self):
-            return self.rec.get("bind", ("0.0.0.0", 0))
-
-        def setblocking(self, f):
-            pass
-
-        def set_inheritable(self, f):
-            pass
-
-    class FakeSocketModule:
-        def __getattr__(self, n):
-            return getattr(socket, n)
-
-    fake = FakeSocketModule()
-    fake.__dict__["socket"] = RecSock
-    orig = hc.socket
-    hc.socket = fake
-    try:
+    with _Recording(type_) as r:
+        hc = r.hc
         if call is not None:
             out = call(hc.Config())
             for name in ("secure_sockets", "insecure_sockets", "quic_sockets"):
@@ -711,9 +730,7 @@ def _record_binds(binds: List[str], type_: int = socket.SOCK_STREAM, call=None) 
             out = hc.Config()._create_sockets(binds, type_)
             for i, sk in enumerate(out):
                 sk.rec["returned_at"] = i
-    finally:
-        hc.socket = orig
-    return recs
+    return r.recs
 
 
 def _record_bind(bind: str, type_: int = socket.SOCK_STREAM):
@@ -862,6 +879,8 @@ def check_bind_lists(ctx: Ctx, cases: List[dict]) -> None:
                 with warnings.catch_warnings():
                     warnings.simplefilter("ignore")
                     obs.append(_record_binds([], call=call))
+                # the object that made these sockets is gone: a Config() made now answers like any other
+                _fresh_probe(ctx, c, "create_sockets() of another Config object with bind + insecure_bind + quic_bind under TLS")
             else:
                 l = c["lists"][0]
                 obs.append(_record_binds(list(l["binds"]), socket.SOCK_DGRAM if l["type"] == "dgram" else socket.SOCK_STREAM))
@@ -1043,10 +1062,15 @@ def check_headers(ctx: Ctx) -> None:
                 for proto in ("h11", "h2", "h3"):
                     c = Config()
                     c.include_date_header, c.include_server_header, c.alt_svc_headers = inc_d, inc_s, alt
-                    hs = c.response_headers(proto)
+                    case = {"family": "headers", "include_date": inc_d, "include_server": inc_s, "alt_svc": alt, "protocol": proto}
+                    try:
+                        hs = c.response_headers(proto)
+                    except Exception as e:      # a configuration that cannot answer at all (never a harness error)
+                        ctx.evaluations += 1
+                        ctx.violation("response_headers", case, {"error": repr(e)}, {"family": "headers", "kind": "raises"})
+                        continue
                     ctx.evaluations += 1
                     ctx.distinct(["headers", inc_d, inc_s, len(alt), proto])
-                    case = {"family": "headers", "include_date": inc_d, "include_server": inc_s, "alt_svc": alt, "protocol": proto}
                     names = [n for n, _ in hs]
                     date = dict(hs).get(b"date", b"")
                     ok = (names == ([b"date"] if inc_d else []) + ([b"server"] if inc_s else []) + [b"alt-svc"] * len(alt)
@@ -1067,7 +1091,401 @@ def check_headers(ctx: Ctx) -> None:
                 ctx.disagree("c19.headers", case, m, hs)
 
 
+# --------------------------------------------------------------------------------------------------------------
+# histories: several Config objects in one process, operations in any order
+# --------------------------------------------------------------------------------------------------------------
+# "The server's response headers are ... the server/alt-svc values the configuration asks for": the configuration is ONE object.
+# What it asks for is its own switches, its own alt-svc values and - when it names none - the QUIC sockets its own last
+# create_sockets() made (that is where `alt-svc: h3=":<port>"` comes from).  Nothing another Config object did, and nothing an earlier
+# create_sockets() of the same object did, may show.  A history is a list of operations on objects 0, 1, 2 …:
+#   {"op": "new", "via": "attrs" | "mapping" | "kwargs", "init": {key: value}}      Config() / Config.from_mapping(init) / (**init)
+#   {"op": "set", "obj": i, "key": k, "value": v [, "ports": [...]]}                 setattr; key "tls" sets certfile + keyfile
+#   {"op": "create_sockets", "obj": i}
+# and after EVERY operation the headers and the public settings of EVERY object are compared with what the object's own
+# operations ask for (computed here, independently of the Lean model), and with the model run on the same history (`c19.history`).
+HISTORY_KEYS = ("include_date_header", "include_server_header", "alt_svc_headers", "quic_bind", "bind", "insecure_bind", "server_names", "tls")
+
+
+def _h3_alpn(ctx: Optional[Ctx] = None) -> List[str]:
+    """`response_headers` imports the optional aioquic only for the constant `H3_ALPN` (the HTTP/3 ALPN tokens).  Where aioquic is
+    not installed a stand-in module carrying that one constant is registered (no hypercorn name is touched), so that a
+    configuration with QUIC sockets can render its headers."""
+    try:
+        from aioquic.h3.connection import H3_ALPN
+        kind = "stand-in" if getattr(sys.modules.get("aioquic"), "__verif_standin__", False) else "aioquic"
+    except ImportError:
+        import types
+        for name in ("aioquic", "aioquic.h3", "aioquic.h3.connection"):
+            sys.modules[name] = types.ModuleType(name)
+        sys.modules["aioquic"].__verif_standin__ = True  # type: ignore[attr-defined]
+        sys.modules["aioquic.h3.connection"].H3_ALPN = ["h3"]  # type: ignore[attr-defined]
+        H3_ALPN, kind = ["h3"], "stand-in"
+    if ctx is not None:
+        ctx.extra["h3_alpn"] = {"source": kind, "value": list(H3_ALPN)}
+    return list(H3_ALPN)
+
+
+def _public_snapshot(config) -> Dict[str, str]:
+    return {k: v for k, v in snapshot(config).items() if not k.startswith("_")}
+
+
+_PRISTINE: Dict[str, Any] = {}
+
+
+def _pristine(reset: bool = False) -> Dict[str, str]:
+    """the public settings of the first `Config()` this process made for C19 (before any family ran)"""
+    if reset or "snap" not in _PRISTINE:
+        from hypercorn.config import Config
+        _PRISTINE["snap"] = _public_snapshot(Config())
+    return _PRISTINE["snap"]
+
+
+def _fresh_probe(ctx: Ctx, case: dict, after: str) -> bool:
+    """A `Config()` made now answers like the first one did: date and server only, the default settings.  If it does not, what ran
+    before (`case`) has left state behind that every later object sees; the module is then re-imported so that what follows is
+    judged on its own."""
+    import hypercorn.config as hc
+    _h3_alpn()
+    ctx.evaluations += 1
+    try:
+        c = hc.Config()
+        hs = c.response_headers("h2")
+        got = [[b2s(n), b2s(v)] for n, v in hs if n != b"date"]
+        snap = _public_snapshot(c)
+    except Exception as e:
+        got, snap = repr(e), {}
+    want = [["server", "hypercorn-h2"]]
+    diff = {k: [_pristine().get(k), snap.get(k)] for k in set(_pristine()) | set(snap) if _pristine().get(k) != snap.get(k)} if snap else {}
+    if got == want and not diff:
+        return True
+    ctx.violation("config_fresh_instance", case, {"after": after, "fresh_config_headers": got, "want": want, "settings_changed": diff},
+                  {"family": case.get("family"), "after": after})
+    importlib.reload(hc)
+    return False
+
+
+def _hist_new_state() -> Dict[str, Any]:
+    return {"include_date_header": True, "include_server_header": True, "alt_svc_headers": [], "quic_bind": [], "quic_bind_ports": [],
+            "tls": False, "quic_ports": [], "sets": {}}
+
+
+def _hist_apply_intent(st: Dict[str, Any], key: str, value: Any, ports: Optional[list]) -> None:
+    if key == "tls":
+        st["tls"] = bool(value)
+        st["sets"]["certfile"] = "cert.pem" if value else None
+        st["sets"]["keyfile"] = "key.pem" if value else None
+        return
+    st["sets"][key] = value
+    if key in st:
+        st[key] = value
+    if key == "quic_bind":
+        st["quic_bind_ports"] = list(ports or [])
+
+
+def _hist_want_headers(st: Dict[str, Any], proto: str, alpn: List[str]) -> List[List[str]]:
+    out = []
+    if st["include_date_header"]:
+        out.append(["date", "<date>"])
+    if st["include_server_header"]:
+        out.append(["server", f"hypercorn-{proto}"])
+    if st["alt_svc_headers"]:
+        out += [["alt-svc", a] for a in st["alt_svc_headers"]]
+    else:
+        out += [["alt-svc", f'{v}=":{p}"; ma=3600'] for v in alpn for p in st["quic_ports"]]
+    return out
+
+
+def _hist_real_set(cfg, key: str, value: Any) -> None:
+    if key == "tls":
+        cfg.certfile, cfg.keyfile = ("cert.pem", "key.pem") if value else (None, None)
+    else:
+        setattr(cfg, key, list(value) if isinstance(value, list) else value)
+
+
+def gen_histories(ctx: Ctx) -> List[dict]:
+    rng = ctx.rng
+    ports = iter(rng.sample(range(20000, 60000), 4000))
+
+    def qb(n: int = 1, unix: bool = False) -> Tuple[List[str], List[Optional[int]]]:
+        binds: List[str] = []
+        pts: List[Optional[int]] = []
+        for _ in range(n):
+            pt = next(ports)
+            binds.append(rng.choice([f"127.0.0.1:{pt}", f"[::1]:{pt}", f"q{pt % 7}.example:{pt}", f"0.0.0.0:{pt}"]))
+            pts.append(pt)
+        if unix:
+            binds.insert(rng.randrange(len(binds) + 1), "unix:/nonexistent-c19/quic.sock")
+            pts.insert(binds.index("unix:/nonexistent-c19/quic.sock"), None)
+        return binds, pts
+
+    def new(via: str = "attrs", **init: Any) -> dict:
+        return {"op": "new", "via": via, "init": init}
+
+    def set_(i: int, key: str, value: Any, pts: Optional[list] = None) -> dict:
+        o = {"op": "set", "obj": i, "key": key, "value": value}
+        if pts is not None:
+            o["ports"] = pts
+        return o
+
+    def quic(i: int, n: int = 1, unix: bool = False) -> dict:
+        b, p = qb(n, unix)
+        return set_(i, "quic_bind", b, p)
+
+    def cs(i: int) -> dict:
+        return {"op": "create_sockets", "obj": i}
+
+    def tls(i: int, on: bool = True) -> dict:
+        return set_(i, "tls", on)
+
+    def tls_quic_new(via: str, n: int = 1) -> dict:
+        b, p = qb(n)
+        o = new(via, certfile="cert.pem", keyfile="key.pem", quic_bind=b)
+        o["ports"] = p
+        return o
+
+    out: List[dict] = []
+
+    def hist(shape: str, ops: List[dict], sockets: str = "recorded", proto: Optional[str] = None) -> None:
+        out.append({"family": "history", "shape": shape, "sockets": sockets, "protocol": proto or rng.choice(["h11", "h2", "h3"]), "ops": ops})
+
+    # one object with TLS + QUIC, another object afterwards
+    hist("other-object-after", [new(), tls(0), quic(0), cs(0), new()])
+    hist("other-object-before", [new(), new(), tls(0), quic(0), cs(0)])
+    hist("other-object-serves", [new(), tls(0), quic(0), cs(0), new(), set_(1, "bind", [f"127.0.0.1:{next(ports)}"]), cs(1)])
+    hist("other-object-from-mapping", [tls_quic_new("mapping"), cs(0), new("mapping", include_server_header=False), new("kwargs")])
+    hist("two-quic-objects", [new(), tls(0), quic(0), new(), tls(1), quic(1, 2), cs(0), cs(1), cs(0)])
+    hist("other-object-alt-svc", [new(), tls(0), quic(0), cs(0), new(), set_(1, "alt_svc_headers", ['h2=":443"']), set_(1, "alt_svc_headers", [])])
+    # the same object again: restart, second serve()
+    hist("again-same-bind", [new(), tls(0), quic(0), cs(0), cs(0)])
+    hist("again-other-bind", [new(), tls(0), quic(0), cs(0), quic(0), cs(0)])
+    hist("again-fewer", [new(), tls(0), quic(0, 3), cs(0), quic(0, 1), cs(0)])
+    hist("again-none", [new(), tls(0), quic(0, 2), cs(0), set_(0, "quic_bind", [], []), cs(0)])
+    hist("again-three-times", [tls_quic_new("kwargs", 2), cs(0), cs(0), cs(0)])
+    # switches and alt-svc values of one object around its sockets
+    hist("alt-svc-overrides", [new(), tls(0), quic(0), cs(0), set_(0, "alt_svc_headers", ['h3=":443"; ma=60', "x"]), set_(0, "alt_svc_headers", [])])
+    hist("switches", [new(), set_(0, "include_date_header", False), new(), set_(1, "include_server_header", False), tls(1), quic(1), cs(1),
+                      set_(0, "include_date_header", True), new()])
+    hist("unix-quic", [new(), tls(0), quic(0, 2, unix=True), cs(0), new()])
+    hist("no-tls-no-quic-sockets", [new(), quic(0), cs(0), new(), tls(1), quic(1), cs(1), cs(0)])
+    hist("lists-of-one-object", [new(), set_(0, "server_names", ["a.example"]), set_(0, "bind", [f"127.0.0.1:{next(ports)}"]),
+                                 set_(0, "insecure_bind", [f"127.0.0.1:{next(ports)}"]), tls(0), cs(0), new(), cs(1)])
+    # real sockets on loopback (port 0: the port is what the OS gives, read from the socket create_sockets() returned)
+    hist("real-other-object", [new(), tls(0), set_(0, "bind", ["127.0.0.1:0"]), set_(0, "quic_bind", ["127.0.0.1:0"], [0]), cs(0), new(),
+                               set_(1, "bind", ["127.0.0.1:0"]), cs(1)], sockets="real", proto="h11")
+    hist("real-again", [new(), tls(0), set_(0, "bind", ["127.0.0.1:0"]), set_(0, "quic_bind", ["127.0.0.1:0", "127.0.0.1:0"], [0, 0]), cs(0), cs(0),
+                        new()], sockets="real", proto="h2")
+    # random histories
+    for _ in range(ctx.budget(60, 1500)):
+        ops: List[dict] = [new(rng.choice(["attrs", "attrs", "mapping", "kwargs"]))]
+        n_obj, tls_on, served = 1, {0: False}, set()
+        for _ in range(rng.randint(4, 14)):
+            i = rng.randrange(n_obj)
+            r = rng.random()
+            if r < 0.12 and n_obj < 4:
+                if rng.random() < 0.5:
+                    ops.append(tls_quic_new(rng.choice(["mapping", "kwargs"]), rng.randint(1, 2)))
+                    tls_on[n_obj] = True
+                else:
+                    ops.append(new(rng.choice(["attrs", "mapping", "kwargs"])))
+                    tls_on[n_obj] = False
+                n_obj += 1
+            elif r < 0.30:
+                # TLS is not switched OFF on an object that has made sockets under TLS (see design_notes/C19.md: out of scope)
+                on = True if (i in served and tls_on[i]) else rng.random() < 0.8
+                ops.append(tls(i, on))
+                tls_on[i] = on
+            elif r < 0.50:
+                ops.append(quic(i, rng.randint(1, 3), unix=rng.random() < 0.1) if rng.random() < 0.85 else set_(i, "quic_bind", [], []))
+            elif r < 0.78:
+                ops.append(cs(i))
+                if tls_on[i]:
+                    served.add(i)
+            elif r < 0.86:
+                ops.append(set_(i, "alt_svc_headers", rng.choice([[], [], ['h3=":443"; ma=3600'], ["a", "b"]])))
+            elif r < 0.93:
+                ops.append(set_(i, rng.choice(["include_date_header", "include_server_header"]), rng.random() < 0.5))
+            else:
+                ops.append(set_(i, rng.choice(["bind", "insecure_bind"]), [f"127.0.0.1:{next(ports)}" for _ in range(rng.randint(1, 2))]))
+        hist("random", ops)
+    return out
+
+
+def check_histories(ctx: Ctx, cases: List[dict]) -> None:
+    import hypercorn.config as hc
+    alpn = _h3_alpn(ctx)
+    reqs: List[Optional[dict]] = []
+    observed: List[Optional[list]] = []
+    for c in cases:
+        _fresh_probe(ctx, {"family": "history-probe"}, "whatever ran before this history")
+        proto = c["protocol"]
+        cfgs: List[Any] = []
+        sts: List[Dict[str, Any]] = []
+        open_socks: List[Any] = []
+        mops: List[dict] = []
+        per_op: List[list] = []
+        sig = {"family": "history", "shape": c["shape"]}
+        ctx.distinct(["history", c["shape"], "+".join(o["op"][0] + (o.get("key", "")[:1]) for o in c["ops"])[:80]])
+        ctx.count("history.shape", c["shape"])
+        ctx.count("history.ops", len(c["ops"]))
+        ctx.sample(c, cap=5)
+        failed = False
+        rec = _Recording(socket.SOCK_DGRAM) if c["sockets"] == "recorded" else None
+        try:
+            if rec is not None:
+                rec.__enter__()
+            for k, op in enumerate(c["ops"]):
+                ctx.count("history.op", op["op"] + (":" + op["key"] if op["op"] == "set" else ""))
+                try:
+                    with warnings.catch_warnings():
+                        warnings.simplefilter("ignore")
+                        if op["op"] == "new":
+                            init = dict(op.get("init") or {})
+                            if op["via"] == "mapping":
+                                cfg = hc.Config.from_mapping(init)
+                            elif op["via"] == "kwargs":
+                                cfg = hc.Config.from_mapping(**init)
+                            else:
+                                cfg = hc.Config()
+                                for kk, vv in init.items():
+                                    setattr(cfg, kk, vv)
+                            cfgs.append(cfg)
+                            st = _hist_new_state()
+                            for kk, vv in init.items():
+                                if kk in ("certfile", "keyfile"):
+                                    st["sets"][kk] = vv
+                                else:
+                                    _hist_apply_intent(st, kk, vv, op.get("ports"))
+                            st["tls"] = init.get("certfile") is not None and init.get("keyfile") is not None
+                            sts.append(st)
+                            mops.append({"op": "new"})
+                            j = len(sts) - 1
+                            for kk, mk in (("include_date_header", "set_date"), ("include_server_header", "set_server")):
+                                if kk in init:
+                                    mops.append({"op": mk, "obj": j, "value": bool(init[kk])})
+                            if "alt_svc_headers" in init:
+                                mops.append({"op": "set_alt_svc", "obj": j, "value": init["alt_svc_headers"]})
+                            if st["tls"]:
+                                mops.append({"op": "set_ssl", "obj": j, "value": True})
+                        elif op["op"] == "set":
+                            j = op["obj"]
+                            _hist_real_set(cfgs[j], op["key"], op["value"])
+                            _hist_apply_intent(sts[j], op["key"], op["value"], op.get("ports"))
+                            mk = {"include_date_header": "set_date", "include_server_header": "set_server", "alt_svc_headers": "set_alt_svc", "tls": "set_ssl"}.get(op["key"])
+                            if mk is not None:
+                                mops.append({"op": mk, "obj": j, "value": op["value"]})
+                        elif op["op"] == "create_sockets":
+                            j = op["obj"]
+                            if c["sockets"] == "real":
+                                for sk in open_socks:
+                                    sk.close()
+                                open_socks.clear()
+                            made = cfgs[j].create_sockets()
+                            quic_ports = [sk.getsockname()[1] for sk in made.quic_sockets if not isinstance(sk.getsockname(), str)]
+                            if c["sockets"] == "real":
+                                open_socks += list(made.secure_sockets) + list(made.insecure_sockets) + list(made.quic_sockets)
+                            if sts[j]["tls"]:
+                                # what THIS call made: the ports the entries of the object's own quic_bind name (the OS's choice for port 0)
+                                want_ports = [p for p in sts[j]["quic_bind_ports"] if p is not None]
+                                if c["sockets"] == "real":
+                                    want_ports = quic_ports if len(quic_ports) == len(want_ports) else want_ports
+                                sts[j]["quic_ports"] = want_ports
+                                if quic_ports != want_ports:
+                                    ctx.violation("config_history_sockets", c, {"op_index": k, "object": j, "quic_sockets_report": quic_ports,
+                                                                                "quic_bind": sts[j]["quic_bind"], "want_ports": want_ports}, sig)
+                            elif quic_ports:
+                                ctx.violation("config_history_sockets", c, {"op_index": k, "object": j, "quic_sockets_report": quic_ports,
+                                                                            "want": "no QUIC socket without TLS"}, sig)
+                            mops.append({"op": "create_sockets", "obj": j, "quic": quic_ports})
+                        else:
+                            raise ValueError(f"unknown operation {op}")
+                except Exception as e:
+                    ctx.violation("config_history_error", c, {"op_index": k, "op": op, "error": repr(e)}, dict(sig, op=op["op"]))
+                    failed = True
+                    break
+                # after every operation: every object answers for itself
+                now: List[Any] = []
+                for j, (cfg, st) in enumerate(zip(cfgs, sts)):
+                    ctx.evaluations += 1
+                    try:
+                        hs = cfg.response_headers(proto)
+                        got = [[b2s(n), b2s(v)] for n, v in hs]
+                        date_ok = all(IMF.match(v) for n, v in got if n == "date")
+                        got = [[n, "<date>" if n == "date" and date_ok else v] for n, v in got]
+                    except Exception as e:
+                        got = repr(e)
+                    now.append(got)
+                    want = _hist_want_headers(st, proto, alpn)
+                    if got != want and not failed:
+                        failed = True
+                        foreign = sorted({(jj, p) for jj, st2 in enumerate(sts) for p in st2["quic_bind_ports"] if jj != j and p is not None
+                                          and isinstance(got, list) and any(f':{p}"' in v for n, v in got if n == "alt-svc")})
+                        ctx.violation("config_history_headers", c,
+                                      {"op_index": k, "op": op, "object": j, "protocol": proto, "got": got, "want": want,
+                                       "own_quic_ports_of_last_create_sockets": st["quic_ports"],
+                                       "ports_of_other_objects_advertised": [{"object": a, "port": b} for a, b in foreign],
+                                       "history_so_far": c["ops"][:k + 1]},
+                                      dict(sig, kind=("raises" if isinstance(got, str) else "foreign-port" if foreign else
+                                                      "stale-or-duplicate" if isinstance(got, list) and len(got) > len(want) else "other")))
+                    try:
+                        snap = _public_snapshot(cfg)
+                    except Exception as e:
+                        snap = {"<snapshot>": repr(e)}
+                    wants = dict(_pristine())
+                    for kk, vv in st["sets"].items():
+                        wants[kk] = repr(vv)
+                    diff = {kk: [wants.get(kk), snap.get(kk)] for kk in set(wants) | set(snap) if wants.get(kk) != snap.get(kk)}
+                    if diff and not failed:
+                        failed = True
+                        ctx.violation("config_history_settings", c, {"op_index": k, "op": op, "object": j, "differs [want, got]": diff,
+                                                                     "history_so_far": c["ops"][:k + 1]}, dict(sig, keys="+".join(sorted(diff))[:80]))
+                per_op.append(now)
+        finally:
+            if rec is not None:
+                rec.__exit__(None, None, None)
+            for sk in open_socks:
+                try:
+                    sk.close()
+                except OSError:
+                    pass
+        if len(per_op) == len(c["ops"]):
+            reqs.append({"cmd": "c19.history", "alpn": alpn, "date": "<date>", "protocol": proto, "ops": mops,
+                         "_marks": None})
+            # the model answers after each of ITS operations; a `new` with initial settings is several of them: keep the last
+            marks, at = [], 0
+            for op in c["ops"]:
+                n = 1
+                if op["op"] == "new":
+                    init = op.get("init") or {}
+                    n = 1 + sum(1 for kk in ("include_date_header", "include_server_header", "alt_svc_headers") if kk in init) + \
+                        (1 if init.get("certfile") is not None and init.get("keyfile") is not None else 0)
+                elif op["op"] == "set" and op["key"] not in ("include_date_header", "include_server_header", "alt_svc_headers", "tls"):
+                    n = 0
+                at += n
+                marks.append(at - 1)
+            reqs[-1]["_marks"] = marks
+            observed.append(per_op)
+        else:
+            reqs.append(None)
+            observed.append(None)
+        _fresh_probe(ctx, c, "this history")
+    live = [(c, r, o) for c, r, o in zip(cases, reqs, observed) if r is not None]
+    model = ctx.model([{k: v for k, v in r.items() if k != "_marks"} for _, r, _ in live])
+    if model is not None:
+        for m, (c, r, o) in zip(model, live):
+            ctx.disagreements_checked += 1
+            ans = m.get("ok")
+            if ans is None:
+                ctx.disagree("c19.history", c, m, o)
+                continue
+            picked = [ans[i] if 0 <= i < len(ans) else [] for i in r["_marks"]]
+            if picked != o:
+                k = next((i for i, (a, b) in enumerate(zip(picked, o)) if a != b), -1)
+                ctx.disagree("c19.history", dict(c, first_difference_after_op=k), picked[k] if k >= 0 else picked, o[k] if k >= 0 else o)
+
+
 def run(ctx: Ctx) -> None:
+    _h3_alpn(ctx)
+    _pristine()
     check_cli(ctx)
     check_loaders(ctx)
     check_binds(ctx, gen_binds(ctx))
@@ -1075,6 +1493,7 @@ def run(ctx: Ctx) -> None:
     check_real_sockets(ctx)
     check_dates(ctx)
     check_headers(ctx)
+    check_histories(ctx, gen_histories(ctx))
 
 
 def replay(ctx: Ctx, case: dict) -> None:
@@ -1082,7 +1501,13 @@ def replay(ctx: Ctx, case: dict) -> None:
     if fam == "bind":
         check_binds(ctx, [case])
     elif fam == "binds":
+        _h3_alpn(ctx)
+        _pristine()
         check_bind_lists(ctx, [case])
+    elif fam == "history":
+        _h3_alpn(ctx)
+        _pristine()
+        check_histories(ctx, [case])
     elif fam == "date":
         from wsgiref.handlers import format_date_time
         s = format_date_time(case["t"])
